@@ -811,7 +811,17 @@ func ruleC10Exits(c *Checker) {
 		c.anchorMissing(R, "the bundle preparation walk callback")
 		return
 	}
-	for _, fn := range ws {
+	// the validated exits may sit in a private helper whose result the callback returns
+	var todo []*ssa.Function
+	todo = append(todo, ws...)
+	done := map[*ssa.Function]bool{}
+	for len(todo) > 0 {
+		fn := todo[0]
+		todo = todo[1:]
+		if done[fn] {
+			continue
+		}
+		done[fn] = true
 		name := p.FuncName(fn)
 		ex := findExclCalls(fn)
 		var exT []Edge
@@ -824,6 +834,23 @@ func ruleC10Exits(c *Checker) {
 				continue
 			}
 			if guarded(r.Block(), rootEdges(fn)) || guarded(r.Block(), exT) {
+				continue
+			}
+			// delegated to a private helper: its own non-error exits are judged instead
+			deleg := false
+			for _, v := range returnValues(r, 0) {
+				if v == nil {
+					continue
+				}
+				if cl := callOf(canon(v)); cl != nil {
+					if h := cl.Common().StaticCallee(); h != nil && p.InModule(h) && len(h.Blocks) > 0 && (h.Object() == nil || !h.Object().Exported()) {
+						deleg = true
+						todo = append(todo, h)
+					}
+				}
+			}
+			if deleg {
+				c.passTrivial(R, name, fmt.Sprintf("keep exit %d delegates", i), p.Pos(r.Pos()), "returns the verdict of a private helper, whose exits are judged")
 				continue
 			}
 			// validated exit
@@ -1271,7 +1298,7 @@ func ruleC18Join(c *Checker) {
 				c.fail(R, name, fmt.Sprintf("result %d", i), p.Pos(r.Pos()), "the looked-up path is not a filepath.Join under the bundle root")
 				continue
 			}
-			args := joinArgs(cl)
+			args := flatJoinArgs(cl)
 			root, dir, sub := false, false, false
 			if len(args) >= 1 {
 				if ld, ok := canon(args[0]).(*ssa.UnOp); ok {
@@ -1458,4 +1485,19 @@ func ruleC08Meta(c *Checker) {
 		pos = p.Pos(off.Pos())
 	}
 	c.check(okAll, R, p.FuncName(fn), "fetcher metadata recorded on every successful path", pos, "every success return lies past the metadata update (or the 'no metadata' edge)", "a success return can be reached without recording the fetcher's metadata (e.g. the early return for an already-present identical directory): the bundle's metadata then depends on fetch order")
+}
+
+
+// flatJoinArgs: the elements of a filepath.Join, with a first element that is
+// itself a Join expanded (Join(Join(a, b), c) == Join(a, b, c)).
+func flatJoinArgs(cl ssa.CallInstruction) []ssa.Value {
+	args := joinArgs(cl)
+	for depth := 0; depth < 4 && len(args) > 0; depth++ {
+		inner := callOf(canon(args[0]))
+		if inner == nil || !isFunc(calleeObj(inner), "path/filepath", "Join") {
+			break
+		}
+		args = append(append([]ssa.Value{}, joinArgs(inner)...), args[1:]...)
+	}
+	return args
 }
